@@ -353,3 +353,17 @@ func (v *VerifPolicy) Admit(candidate, victim int, rand uint32) bool {
 	v.p.rand = func() uint32 { return rand }
 	return v.p.admit(candidate, victim)
 }
+
+// VerifRawTable dumps the table without any side effect (Cache.All schedules maintenance when it meets a
+// dead or expired node, which would perturb the very state under observation).
+func (c *Cache[K, V]) VerifRawTable() []VerifNode[K, V] {
+	var out []VerifNode[K, V]
+	c.cache.hashmap.Range(func(n node.Node[K, V]) bool {
+		out = append(out, c.cache.verifNode(n))
+		return true
+	})
+	return out
+}
+
+// VerifTableResizes reports (growths, shrinks) of the key index.
+func (c *Cache[K, V]) VerifTableResizes() (int64, int64) { return c.cache.hashmap.VerifResizes() }
